@@ -874,7 +874,8 @@ def set_transit_compartments(model: Model, n: int, keep_depot: bool = True):
             innode, inflow = inflows[0]
             cb.add_flow(innode, central, inflow)
         else:
-            cb.set_dose(central, depot.doses[0])
+            central = cb.set_dose(central, depot.doses[0])
+            cb.set_bioavailability(central, depot.bioavailability)
         if statements.find_assignment('MAT'):
             model = _rename_parameter(model, 'MAT', 'MDT')
             statements = model.statements
